@@ -8,8 +8,10 @@
    action or reusable workflow).  For the bounded model the programs are constants; for the scheduler
    gate they are read off a recorded run of the real code (hook points rw-reg-read / rw-read / ac-read).
 
-   Resolve(k)     sequential, before any worker: the project of the k-th argument is the first
-                  known project that "knows" the path, else it is searched in the parents.
+   Resolve(k)     sequential, before any worker: the root of the k-th argument is searched in its parents and
+                  the known project instance with that root is reused (ResolveMode "search"; the variant
+                  "knownfirst" - first known project that contains the path - is what the code did before
+                  fix: nested repositories; kept as a counterexample guard).
    Start(f)       the goroutine of file f begins (after all Resolve steps)           [hook file-go]
    RegRead(f)     "reg": look the spec up; present -> nothing to do                   [rw-reg-read]
    RegWrite(f)    "reg": absent at RegRead -> write the AST-derived interface (a separate step:
@@ -29,7 +31,10 @@ CONSTANTS Files,        \* file ids
           RepoOf,       \* [Files -> repository name or "none"]
           Prog,         \* [Files -> sequence of <<"reg" | "use", spec>>]
           NamePrefix,   \* set of <<a, b>>: repository directory name a is a proper string prefix of b (siblings)
+          Inside,       \* set of <<inner, outer>>: repository inner lies in a sub-directory of repository outer (nested)
           KnowsMode,    \* "segments" (intended) | "stringprefix" (what strings.HasPrefix on paths does)
+          ResolveMode,  \* "search" (the root is always searched from the file, instances are reused by root) |
+                        \* "knownfirst" (the first known project that contains the path wins - wrong for nested repositories)
           Agree         \* TRUE: interface derived from the AST = interface derived from the file
 
 VARIABLES args, k, known, proj, cache, pc, idx, seen
@@ -46,6 +51,7 @@ Range(s) == {s[i] : i \in DOMAIN s}
 
 \* does project p claim the file f ?
 Knows(p, f) == \/ RepoOf[f] = p
+               \/ <<RepoOf[f], p>> \in Inside          \* the path of a file of a nested repository starts with the outer root too
                \/ KnowsMode = "stringprefix" /\ <<p, RepoOf[f]>> \in NamePrefix
 \* what the interface of spec looks like depending on where it was derived from
 Iface(spec, src) == IF Agree THEN <<spec, "iface">> ELSE <<spec, src>>
@@ -63,11 +69,11 @@ Resolve ==
   /\ k <= Len(args)
   /\ LET f == args[k]
          hits == {i \in DOMAIN known : Knows(known[i], f)} IN
-     IF hits # {}
+     IF ResolveMode = "knownfirst" /\ hits # {}
        THEN /\ proj' = [proj EXCEPT ![f] = known[CHOOSE i \in hits : \A j \in hits : i <= j]]
             /\ UNCHANGED known
        ELSE /\ proj' = [proj EXCEPT ![f] = RepoOf[f]]
-            /\ known' = IF RepoOf[f] = "none" THEN known ELSE Append(known, RepoOf[f])
+            /\ known' = IF RepoOf[f] = "none" \/ RepoOf[f] \in Range(known) THEN known ELSE Append(known, RepoOf[f])
   /\ k' = k + 1
   /\ UNCHANGED <<args, cache, pc, idx, seen>>
 
